@@ -128,9 +128,10 @@ PROPS = {
         "theorems_note": "Props/C01.v: simulation theorem (every concrete run under every schedule/chunk size is an admissible abstract "
                          "run on the source's stream), chunking independence for answer-insensitive programs, instance for the SWAR "
                          "scanner; whole DIMACS / solver-log parsers: every admissible run finishes and all agree, hence every concrete run "
-                         "returns the value of the simple run (C01_dimacs_any_chunking, C01_log_any_chunking); AIGER aag/aig programs: "
-                         "answer-insensitivity proved (PDet_parse_aag/aig), safety not yet (partial); all modelled programs are validated by "
-                         "the pa correspondence stream; BTOR2 by the implementation-only oracle (partial)",
+                         "returns the value of the simple run (C01_dimacs_any_chunking, C01_log_any_chunking); AIGER aag/aig and BTOR2 programs: "
+                         "answer-insensitivity proved (PDet_parse_aag/aig/btor2, incl. the BTOR2 keyword scanner's 8-byte fast path = its cold "
+                         "path for every 64-bit word), safety not yet (partial); all seven parsers are modelled and validated by the pa "
+                         "correspondence stream (BTOR2: every field of every line, writer bytes, constant constructors)",
         "assumes": ["honest sources (Read contract kept), chunk size >= 1, sizes < 2^62"],
     },
     "C14": {
@@ -262,6 +263,7 @@ PROPS = {
              "args": {"kind": "rt"}},
             {"name": "o_exp", "module": "pa", "quick": 3000, "thorough": 40000, "kind": "oracle", "profiles": ["debug"],
              "args": {"kind": "expect"}},
+            {"name": "pa", "module": "pam", "quick": 2500, "thorough": 40000, "profiles": ["debug"], "oracle_prefix": "o_c01"},
             {"name": "wr", "module": "wr", "quick": 1500, "thorough": 20000, "profiles": ["debug"], "oracle_prefix": "o_wr"},
             {"name": "tx_digits", "module": "tx", "quick": 1500, "thorough": 20000, "profiles": ["debug"], "args": {"kind": "digits"}},
             {"name": "pa_fixed", "module": "fixed", "quick": 0, "thorough": 0, "kind": "oracle", "profiles": ["debug"]},
@@ -271,7 +273,8 @@ PROPS = {
                 "the second parse must end cleanly; values built through the public constructors (BTOR2 constants of all three "
                 "radixes incl. invalid strings) written and parsed; writer and digit scanner compared with the model",
         "theorems_note": "Props/C03.v: decimal text read back exactly by every admissible scanner run; varint round trip; BTOR2 operator "
-                         "names = keywords (regenerated table)",
-        "assumes": ["whole-document round trips: oracle on the implementation (partial)"],
+                         "names = keywords (regenerated table); BTOR2 whole-document and single-line round trip of the parser program and writer function",
+        "assumes": ["whole-document round trips of the DIMACS family and AIGER: oracle on the implementation (partial)",
+                    "BTOR2 round trip: for the simple run; values in the format's domain (line_ok)"],
     },
 }
